@@ -531,11 +531,14 @@ class FakeProcess(object):
         return 'sim'
 
 
-def _run_preexec(preexec_fn, probe):
+def _run_preexec(preexec_fn, probe, out_pipe=False, err_pipe=False):
     """What the child does between fork and exec, for real: a forked copy of
-    this process runs circus' preexec function, then reports probe() (a
-    JSON-able view of its descriptors) and exits."""
+    this process puts stand-in pipes on its descriptors 1 / 2 where Popen
+    would have put the capture pipes, runs circus' preexec function, then
+    reports probe() (a JSON-able view of its descriptors) together with what
+    its descriptors 1 and 2 are now, and exits."""
     import json as _json
+    import stat as _stat
     r, w = os.pipe()
     pid = os.fork()
     if pid == 0:
@@ -543,10 +546,34 @@ def _run_preexec(preexec_fn, probe):
         try:
             os.close(r)
             try:
+                inos = {}
+                for fd, wanted in ((1, out_pipe), (2, err_pipe)):
+                    if wanted:
+                        pr, pw = os.pipe()
+                        os.dup2(pw, fd)
+                        os.close(pw)
+                        os.close(pr)
+                        inos[fd] = os.fstat(fd).st_ino
                 preexec_fn()
-                out = _json.dumps(probe()).encode()
+                std = {}
+                for fd in (1, 2):
+                    try:
+                        st_ = os.fstat(fd)
+                    except OSError:
+                        std[str(fd)] = 'closed'
+                        continue
+                    if fd in inos and st_.st_ino == inos[fd] and \
+                            _stat.S_ISFIFO(st_.st_mode):
+                        std[str(fd)] = 'pipe'
+                    elif _stat.S_ISCHR(st_.st_mode) and \
+                            st_.st_rdev == os.makedev(1, 3):
+                        std[str(fd)] = 'null'
+                    else:
+                        std[str(fd)] = 'other'
+                out = _json.dumps({"view": probe(), "std": std}).encode()
             except BaseException as e:       # noqa
-                out = _json.dumps({"error": repr(e)}).encode()
+                out = _json.dumps({"view": {"error": repr(e)},
+                                   "std": None}).encode()
         finally:
             try:
                 os.write(w, out)
@@ -597,7 +624,10 @@ class FakePopen(FakeProcess):
                 break
             f = f.f_back
         if k.preexec_probe is not None and preexec_fn is not None:
-            rec["child_view"] = _run_preexec(preexec_fn, k.preexec_probe)
+            res_ = _run_preexec(preexec_fn, k.preexec_probe,
+                                stdout is not None, stderr is not None)
+            rec["child_view"] = (res_ or {}).get("view")
+            rec["child_std"] = (res_ or {}).get("std")
         pid = k.spawn(rec, owner)      # may raise OSError (exec failure)
         FakeProcess.__init__(self, k, pid)
         self.returncode = None
